@@ -6,6 +6,9 @@ use crate::{
     prelude::*,
     types::{FunctionContext, meta_id_to_key, value::RegisterSlice},
 };
+#[cfg(koto_verif)]
+use crate::verif_clock::Instant;
+#[cfg(not(koto_verif))]
 use instant::Instant;
 use koto_bytecode::{Chunk, Instruction, InstructionReader, ModuleLoader};
 use koto_parser::{
@@ -182,6 +185,22 @@ pub struct KotoVm {
     execution_state: ExecutionState,
 }
 
+/// Verification-only snapshot of a VM's internal execution state, see [KotoVm::verif_state]
+#[cfg(koto_verif)]
+#[derive(Debug, Clone, Copy, PartialEq, Eq, Hash, Default)]
+#[allow(missing_docs)]
+pub struct VerifVmState {
+    pub registers: usize,
+    pub register_base: usize,
+    pub min_frame_registers: usize,
+    pub call_stack: usize,
+    pub sequence_builders: usize,
+    pub string_builders: usize,
+    pub module_cache_entries: usize,
+    pub module_cache_placeholders: usize,
+    pub active: bool,
+}
+
 /// The execution state of a VM
 #[derive(Debug, Clone)]
 pub enum ExecutionState {
@@ -237,6 +256,23 @@ impl KotoVm {
             string_builders: Vec::new(),
             instruction_ip: 0,
             execution_state: ExecutionState::Inactive,
+        }
+    }
+
+    /// Verification-only read access to the VM's internal execution state
+    #[cfg(koto_verif)]
+    pub fn verif_state(&self) -> VerifVmState {
+        let module_cache = self.context.module_cache.borrow();
+        VerifVmState {
+            registers: self.registers.len(),
+            register_base: self.register_base,
+            min_frame_registers: self.min_frame_registers,
+            call_stack: self.call_stack.len(),
+            sequence_builders: self.sequence_builders.len(),
+            string_builders: self.string_builders.len(),
+            module_cache_entries: module_cache.len(),
+            module_cache_placeholders: module_cache.values().filter(|v| v.is_none()).count(),
+            active: matches!(self.execution_state, ExecutionState::Active),
         }
     }
 
@@ -765,6 +801,9 @@ impl KotoVm {
         self.execution_state = ExecutionState::Active;
 
         while let Some(instruction) = self.reader.next() {
+            #[cfg(koto_verif)]
+            crate::verif_clock::tick();
+
             if let Some(timeout) = timeout.as_mut()
                 && timeout.check_for_timeout()
             {
